@@ -8,6 +8,7 @@ package sched
 
 import (
 	"bytes"
+	"context"
 	"fmt"
 	"os"
 	"regexp"
@@ -51,7 +52,7 @@ func TestMain(m *testing.M) {
 		}
 	}
 	core.DeclareFaults("preemption", "preemption-inside-tink-call", "task-finished-handover", "free-run-fallback", "blocked-on-lock-handover")
-	core.DeclareProbes("globally-sourced-randomness(semantic oracle)", "legacy-adapter", "kms-envelope-aead", "multi-key-keyset", "handle-reads", "construct-under-schedule",
+	core.DeclareProbes("globally-sourced-randomness(semantic oracle)", "legacy-adapter", "kms-envelope-aead", "kms-envelope-aead-with-context", "multi-key-keyset", "handle-reads", "construct-under-schedule",
 		"registry-lookup", "keygen-under-schedule", "accept-rejects-corrupted", "race-build", "monitored-handle", "monitoring-events-compared", "round-robin-plan", "site-targeted-plan", "reparse-construct-under-schedule", "prehash-signing-path")
 	// "keygen-not-a-function-of-the-reader(semantic oracle)" is not declared: it cannot occur while GODEBUG
 	// cryptocustomrand=1 holds (the orchestrator forces it) and every tink key generator reads crypto/rand.Reader
@@ -91,6 +92,9 @@ type op struct {
 }
 
 type shared struct {
+	// mk, if set, builds the producing and accepting side afresh without a handle (a primitive that is constructed
+	// directly, e.g. the context-aware KMS-envelope AEAD); used for the shared object and for its cold twin
+	mk        func() (*classes.Producer, *classes.Acceptor, error)
 	class     string
 	entry     catalog.Entry
 	h         *keyset.Handle
@@ -246,6 +250,36 @@ func runSched(t *rapid.T) {
 		}
 		sh.h = h
 		sh.entry = catalog.Entry{Name: "aead/kmsenvelope/" + strings.TrimPrefix(dek.TypeUrl, "type.googleapis.com/google.crypto.tink."), KeyType: "kmsenvelope"}
+		if rapid.Bool().Draw(t, "kmsWithContext") {
+			// the context-aware variant is constructed directly over a context-aware KEK; every call gets a context of
+			// its own (a fresh child of Background carrying a per-call value), as callers do
+			r.Probe("kms-envelope-aead-with-context")
+			sh.entry.KeyType = "kmsenvelope-withcontext"
+			sh.mk = func() (*classes.Producer, *classes.Acceptor, error) {
+				kek, err := kmsfake.KEKWithContext()
+				if err != nil {
+					return nil, nil, err
+				}
+				a, err := aead.NewKMSEnvelopeAEADWithContext(dek, kek)
+				if err != nil {
+					return nil, nil, err
+				}
+				type ctxKey struct{}
+				newCtx := func() context.Context { return context.WithValue(context.Background(), ctxKey{}, new(int)) } // no shared harness state
+				p := &classes.Producer{Class: classes.AEAD, Raw: a, Produce: func(msg, aux []byte) ([]byte, error) { return a.EncryptWithContext(newCtx(), msg, aux) }}
+				c := &classes.Acceptor{Class: classes.AEAD, Raw: a, Accept: func(out, msg, aux []byte) error {
+					pt, err := a.DecryptWithContext(newCtx(), out, aux)
+					if err != nil {
+						return err
+					}
+					if !bytes.Equal(pt, msg) {
+						return fmt.Errorf("decrypts to another plaintext")
+					}
+					return nil
+				}}
+				return p, c, nil
+			}
+		}
 	case "legacy":
 		r.Probe("legacy-adapter")
 		sh.class = rapid.SampledFrom([]string{classes.MAC, classes.AEAD, classes.DAEAD, classes.Signature, classes.Hybrid}).Draw(t, "stubClass")
@@ -285,7 +319,14 @@ func runSched(t *rapid.T) {
 		sh.h = h
 	}
 	var err error
-	sh.prod, err = classes.NewProducer(sh.class, sh.h)
+	if sh.mk != nil {
+		sh.prod, sh.acc, err = sh.mk()
+		if err != nil {
+			t.Fatalf("harness: %s: %v", sh.entry.Name, err)
+		}
+	} else {
+		sh.prod, err = classes.NewProducer(sh.class, sh.h)
+	}
 	if err == nil && sh.class == classes.Signature && sh.entry.KeyType == "mldsa" && rapid.Bool().Draw(t, "prehashPath") {
 		// the two-step external-mu signing path (signprehash) of the same key; refused for variants without an ID
 		if p, perr := classes.NewPrehashProducer(sh.h); perr == nil {
@@ -298,7 +339,7 @@ func runSched(t *rapid.T) {
 		core.CountGlobal("primitive-refused:" + sh.entry.KeyType)
 		t.Skip("primitive refused")
 	}
-	if sh.class != classes.KeyDerivation {
+	if sh.class != classes.KeyDerivation && sh.mk == nil {
 		sh.acc, err = classes.NewAcceptor(sh.class, sh.h)
 		if err != nil {
 			t.Fatalf("harness: acceptor for %s: %v", sh.entry.Name, err)
@@ -347,7 +388,7 @@ func runSched(t *rapid.T) {
 	// ---- sequential oracle: every task alone, on its own RNG lane
 	expected := make([][]result, nTasks)
 	expectedEvents := make([][]simmon.Event, nTasks)
-	firsts := make([][]uint32, nTasks) // per task: yield indices at which a site is reached for the first time, ascending
+	firsts := make([][]uint32, nTasks)  // per task: yield indices at which a site is reached for the first time, ascending
 	lockAts := make([][]uint32, nTasks) // per task: yield indices of its lock acquisitions when run alone
 	var seqYields uint64
 	mon.SetLaneFunc(func() int { return lane })
@@ -694,7 +735,11 @@ func coldTwin(sh *shared, monitored bool) (*shared, error) {
 		core.CountGlobal("cold-twin-shares-handle:" + sh.entry.KeyType)
 		h = sh.h
 	}
-	c := &shared{class: sh.class, entry: sh.entry, h: h, semantic: sh.semantic, outputs: sh.outputs, monitored: monitored}
+	c := &shared{class: sh.class, entry: sh.entry, h: h, semantic: sh.semantic, outputs: sh.outputs, monitored: monitored, mk: sh.mk}
+	if sh.mk != nil {
+		c.prod, c.acc, err = sh.mk()
+		return c, err
+	}
 	if sh.prehash {
 		c.prod, err = classes.NewPrehashProducer(h)
 		c.prehash = true
